@@ -45,7 +45,7 @@ def n_cases(tier):
 
 
 def tasks(seed, tier, n):
-    kinds = ['sched', 'fault', 'oneshot', 'sched', 'timeout', 'oneshot', 'fault', 'sched']
+    kinds = ['sched', 'fault', 'oneshot', 'sched', 'timeout', 'oneshot', 'fault', 'oneshot']
     return [{'case': i, 'mode': 'main', 'kind': kinds[i % len(kinds)], 'hclass': i % 4} for i in range(n)]
 
 
@@ -245,10 +245,16 @@ def run_oneshot(seed, task, out, only=None):
         except cvcase.LayoutFailure:
             out['invalid'] = True
             return case
-        for cmd, flags in flag_sets:
+        # every command is run under the case's limits and under a second draw of binding limits
+        rng2 = R.case_rng(seed, ENGINE, task['case'], 'limits2')
+        cfg2 = dict(cfg, min_mw=rng2.choice([650., 800., 900., 1000., 1100., 1300.]),
+                    min_length=rng2.choice([5, 6, 7, 8]), max_length=rng2.choice([10, 14, 20, 30]))
+        for cmd, flags, cfg in [(c, f, k) for c, f in flag_sets for k in (cfg, cfg2)]:
             if only is not None and cmd != only:
                 continue
             outp = Path(wd) / f'{cmd}.fasta'
+            if outp.exists():
+                outp.unlink()
             args, exc = oneshot_cmd(cmd, ref, outp, cfg, flags)
             if exc is not None:
                 out.setdefault('oneshot_errors', []).append((cmd, exc))
@@ -275,7 +281,7 @@ def run_oneshot(seed, task, out, only=None):
                                                                      'flags': flags, 'index_dir': use_index},
                        'seed': seed, 'case': task['case'], 'hclass': task['hclass'],
                        'hashseed': driver.HASH_CLASSES[task['hclass']], 'kind': 'oneshot', 'case_data': case,
-                       'replay_info': {'cmd': cmd}}
+                       'replay_info': {'cmd': cmd, 'limits': [cfg['min_mw'], cfg['min_length'], cfg['max_length']]}}
                 rep['digest'] = R.digest([seed, task['case'], kinds[0], cmd])
                 out['violations'].append(rep)
     return case
